@@ -124,6 +124,9 @@ def _add_lmf(
     progress.flash(f'Checking {source!s}')
     infos = lmf.scan_lexicons(source)
     if not infos:
+        # the scan finds nothing in a truncated or otherwise malformed
+        # file, too; loading it reports such a file
+        lmf.load(source, progress_handler)
         progress.flash(f'{source}: No lexicons found')
         return
 
